@@ -64,19 +64,29 @@ def load_known():
 
 
 # ------------------------------------------------------------------ worker
-def run_family(mod, verif_seed, index, tier, tick=None):
+CUT_SHORT = [False]
+
+
+def run_family(mod, verif_seed, index, tier, tick=None, deadline=None):
     """-> (cases, outcomes) for one family; deterministic.  tick() is called
-    before the generation and before every case (re-arms the watchdog)."""
+    before the generation and before every case (re-arms the watchdog).  Past
+    `deadline` (the batch's wall-clock cap) the rest of the family is left out
+    and CUT_SHORT[0] is set: a large systematic family must not carry a check
+    far beyond its cap."""
     rng = random.Random(family_seed(verif_seed, mod.PROP, index))
     if tick:
         tick()
     cases = mod.gen(rng, tier, index)
     outs = []
+    CUT_SHORT[0] = False
     for c in cases:
+        if deadline is not None and time.time() > deadline:
+            CUT_SHORT[0] = True
+            break
         if tick:
             tick()
         outs.append(guarded_run(mod, c))
-    return cases, outs
+    return cases[:len(outs)], outs
 
 
 def _rearm():
@@ -179,11 +189,14 @@ def worker_main(prop, verif_seed, tier, nfam, counter, conn, wid, deadline, chun
                 if time.time() > deadline:
                     acc['truncated'] = True
                     break
-                cases, outs = run_family(mod, verif_seed, i, tier, _rearm)
+                cases, outs = run_family(mod, verif_seed, i, tier, _rearm, deadline)
+                if CUT_SHORT[0]:
+                    acc['truncated'] = True
                 d = _digest(outs)
                 if i < 64:
                     acc['digests'][i] = d
-                if twice_every and i % twice_every == 0 and len(cases) <= 400:
+                if twice_every and i % twice_every == 0 and len(cases) <= 400 \
+                        and not CUT_SHORT[0] and time.time() < deadline:
                     cases2, outs2 = run_family(mod, verif_seed, i, tier, _rearm)
                     if _digest(outs2) != d or cases2 != cases:
                         acc['nondet'].append(i)
